@@ -1,13 +1,374 @@
 /-
   C16 — running out of memory yields a clean error, never a crash or a leak.
+
+  Every theorem is about the ledger-monad models of `Model/Alloc*.lean` (tied to the C code by the
+  OOM correspondence of `tools/props/c16.py`).  The clause proved per function is
+
+      `SingleFailureClean f isErr s consumed owned` :
+        for EVERY k, the run of `f` from ledger `s` with request k failing
+          * ends without fault (no double free, no free of an unknown block, no use after free,
+            no NULL dereference),
+          * leaves  live = (live₀ \ consumed) ∪ owned(result)  — nothing leaked, nothing else freed,
+          * returns an error, or else exactly the value of the run without failure.
+
+  It is obtained from a stronger fact that holds for EVERY schedule (`AnyScheduleClean`: any set
+  of failing requests — pairs, triples, …), proved by induction on the attribute / piece / cell
+  lists in `Lemmas/Alloc*.lean`.  The `*_old_*` theorems are the kernel-checked `(function, k)`
+  witnesses that the code before the `fix:` commits violated the clause.
 -/
 import Wbxml.Lemmas.AllocCont
+import Wbxml.Lemmas.AllocParse
+import Wbxml.Model.AllocOld
 namespace Wbxml.Props.C16
 open Wbxml Wbxml.Model.Alloc
 
-theorem bufCreate_clean (src : Option Bytes) (blk : Nat) (s : Ledger) (wf : s.WF) :
-    Good (bufCreate src blk) s (fun r s' =>
-      LiveEq s s' [] (ownedBufOpt r) ∧ (s.hits < s'.hits → r = none)) :=
-  (bufCreate_spec src blk s wf).mono (fun _ _ h => ⟨h.1, h.2.2.2⟩)
+/-- The clause under an arbitrary failure schedule. -/
+def AnyScheduleClean {α : Type} (f : Prog α) (isErr : α → Bool) (s : Ledger) (consumed : List Nat)
+    (owned : α → List Nat) : Prop :=
+  ∀ sched : List Nat, ∃ r s', run f { s with sched := sched } = (.ok r, s') ∧
+    (∀ i, i ∈ s'.live ↔ (i ∈ s.live ∧ i ∉ consumed) ∨ i ∈ owned r) ∧
+    (isErr r = true ∨ (run f { s with sched := [] }).1 = .ok r)
+
+/-- The clause of the property: one failing request, any k. -/
+def SingleFailureClean {α : Type} (f : Prog α) (isErr : α → Bool) (s : Ledger) (consumed : List Nat)
+    (owned : α → List Nat) : Prop :=
+  ∀ k : Nat, ∃ r s', run f { s with sched := failAt k } = (.ok r, s') ∧
+    (∀ i, i ∈ s'.live ↔ (i ∈ s.live ∧ i ∉ consumed) ∨ i ∈ owned r) ∧
+    (isErr r = true ∨ (run f { s with sched := [] }).1 = .ok r)
+
+/-- … and two failing requests (thorough tier of the enumeration). -/
+def PairFailureClean {α : Type} (f : Prog α) (isErr : α → Bool) (s : Ledger) (consumed : List Nat)
+    (owned : α → List Nat) : Prop :=
+  ∀ k1 k2 : Nat, ∃ r s', run f { s with sched := [k1, k2] } = (.ok r, s') ∧
+    (∀ i, i ∈ s'.live ↔ (i ∈ s.live ∧ i ∉ consumed) ∨ i ∈ owned r) ∧
+    (isErr r = true ∨ (run f { s with sched := [] }).1 = .ok r)
+
+theorem AnyScheduleClean.single {α : Type} {f : Prog α} {isErr : α → Bool} {s : Ledger} {c : List Nat} {o : α → List Nat}
+    (h : AnyScheduleClean f isErr s c o) : SingleFailureClean f isErr s c o := fun k => h (failAt k)
+
+theorem AnyScheduleClean.pair {α : Type} {f : Prog α} {isErr : α → Bool} {s : Ledger} {c : List Nat} {o : α → List Nat}
+    (h : AnyScheduleClean f isErr s c o) : PairFailureClean f isErr s c o := fun k1 k2 => h [k1, k2]
+
+/-- From a specification that holds in every well-formed ledger to the clause: a run that was
+    delivered no failure is the un-failed run (`run_nohit`), a run that was must report an error. -/
+theorem clean_of_live {α : Type} {f : Prog α} {isErr : α → Bool} {s : Ledger} {c : List Nat} {o : α → List Nat}
+    (spec : ∀ s' : Ledger, s'.live = s.live → s'.next = s.next →
+      Good f s' (fun r t => (∀ i, i ∈ t.live ↔ (i ∈ s'.live ∧ i ∉ c) ∨ i ∈ o r) ∧ s'.hits ≤ t.hits ∧
+        (s'.hits < t.hits → isErr r = true))) :
+    AnyScheduleClean f isErr s c o := by
+  intro sched
+  obtain ⟨r, t, hrun, hlive, hle, herr⟩ := (spec { s with sched := sched } rfl rfl).elim
+  refine ⟨r, t, hrun, hlive, ?_⟩
+  by_cases hh : ({ s with sched := sched } : Ledger).hits < t.hits
+  · exact Or.inl (herr hh)
+  · refine Or.inr ?_
+    have heq : (run f { s with sched := sched }).2.hits = ({ s with sched := sched } : Ledger).hits := by
+      rw [hrun]; simp at hle hh ⊢; omega
+    have := run_nohit f { s with sched := sched } heq
+    rw [hrun] at this
+    simpa using congrArg Prod.fst this
+
+theorem clean_of_spec {α : Type} {f : Prog α} {isErr : α → Bool} {s : Ledger} {c : List Nat} {o : α → List Nat}
+    (spec : ∀ s' : Ledger, s'.live = s.live → s'.next = s.next →
+      Good f s' (fun r t => Clean s' t c (o r) ∧ (s'.hits < t.hits → isErr r = true))) :
+    AnyScheduleClean f isErr s c o :=
+  clean_of_live fun s' hl hn => (spec s' hl hn).mono fun r t ⟨c, h⟩ => ⟨c.live, c.hits, h⟩
+
+/-- Well-formedness only looks at `live` and `next`. -/
+theorem wf_of_eq {s s' : Ledger} (wf : s.WF) (hl : s'.live = s.live) (hn : s'.next = s.next) : s'.WF := by
+  intro i hi; rw [hl] at hi; rw [hn]; exact wf i hi
+
+theorem owns_of_eq {s s' : Ledger} {X : List Nat} (own : Owns s X) (hl : s'.live = s.live) : Owns s' X :=
+  ⟨own.1, fun i hi => by rw [hl]; exact own.2 i hi⟩
+
+/-! ## Container core: buffers -/
+
+theorem buffer_create_clean (src : Option Bytes) (blk : Nat) (s : Ledger) (wf : s.WF) :
+    AnyScheduleClean (bufCreate src blk) Option.isNone s [] ownedBufOpt :=
+  clean_of_spec fun s' hl hn => (bufCreate_spec src blk s' (wf_of_eq wf hl hn)).mono
+    fun r t ⟨c, h, _, _⟩ => ⟨c, fun hh => by rw [h hh]; rfl⟩
+
+theorem buffer_sta_create_clean (d : Bytes) (s : Ledger) (wf : s.WF) :
+    AnyScheduleClean (bufStaCreate d) Option.isNone s [] ownedBufOpt :=
+  clean_of_spec fun s' hl hn => (bufStaCreate_spec d s' (wf_of_eq wf hl hn)).mono
+    fun r t ⟨c, h, _⟩ => ⟨c, fun hh => by rw [h hh]; rfl⟩
+
+theorem buffer_destroy_clean (b : Option ABuf) (s : Ledger) (wf : s.WF) (own : Owns s (ownedBufOpt b)) :
+    AnyScheduleClean (bufDestroy b) (fun _ => false) s (ownedBufOpt b) (fun _ => []) :=
+  clean_of_spec fun s' hl hn => (bufDestroy_spec b s' (wf_of_eq wf hl hn) (owns_of_eq own hl)).mono
+    fun r t ⟨c, h, _⟩ => ⟨c, fun hh => by omega⟩
+
+/-- `grow_buff` (repaired): the old block is kept on failure. -/
+theorem grow_buff_clean (b : ABuf) (size : Nat) (s : Ledger) (wf : s.WF) (own : Owns s b.owned) :
+    AnyScheduleClean (growBuff b size) (fun r => !r.2) s b.owned (fun r => r.1.owned) :=
+  clean_of_spec fun s' hl hn => (growBuff_spec b size s' (wf_of_eq wf hl hn) (owns_of_eq own hl)).mono
+    fun r t ⟨⟨_, _, c, h, _⟩, _⟩ => ⟨c, fun hh => by rw [h hh]; rfl⟩
+
+theorem insert_data_clean (b : ABuf) (pos : Nat) (d : Bytes) (s : Ledger) (wf : s.WF) (own : Owns s b.owned) (hok : b.ok) :
+    AnyScheduleClean (insertData b pos d) (fun r => !r.2) s b.owned (fun r => r.1.owned) :=
+  clean_of_spec fun s' hl hn => (insertData_spec b pos d s' (wf_of_eq wf hl hn) (owns_of_eq own hl) hok).mono
+    fun r t ⟨_, _, c, h, _⟩ => ⟨c, fun hh => by rw [h hh]; rfl⟩
+
+theorem buffer_append_data_clean (b : ABuf) (d : Option Bytes) (s : Ledger) (wf : s.WF) (own : Owns s b.owned) (hok : b.ok) :
+    AnyScheduleClean (bufAppendData b d) (fun r => !r.2) s b.owned (fun r => r.1.owned) :=
+  clean_of_spec fun s' hl hn => (bufAppendData_spec b d s' (wf_of_eq wf hl hn) (owns_of_eq own hl) hok).mono
+    fun r t ⟨_, _, c, h, _⟩ => ⟨c, fun hh => by rw [h hh]; rfl⟩
+
+theorem buffer_append_clean (dest : ABuf) (src : Option ABuf) (s : Ledger) (wf : s.WF) (own : Owns s dest.owned)
+    (hok : dest.ok) (hsrc : ∀ x, src = some x → x.hdr ∈ s.live) :
+    AnyScheduleClean (bufAppend dest src) (fun r => !r.2) s dest.owned (fun r => r.1.owned) :=
+  clean_of_spec fun s' hl hn =>
+    (bufAppend_spec dest src s' (wf_of_eq wf hl hn) (owns_of_eq own hl) hok (fun x hx => by rw [hl]; exact hsrc x hx)).mono
+      fun r t ⟨_, _, c, h, _⟩ => ⟨c, fun hh => by rw [h hh]; rfl⟩
+
+theorem buffer_append_char_clean (b : ABuf) (ch : UInt8) (s : Ledger) (wf : s.WF) (own : Owns s b.owned) (hok : b.ok) :
+    AnyScheduleClean (bufAppendChar b ch) (fun r => !r.2) s b.owned (fun r => r.1.owned) :=
+  clean_of_spec fun s' hl hn => (bufAppendChar_spec b ch s' (wf_of_eq wf hl hn) (owns_of_eq own hl) hok).mono
+    fun r t ⟨_, _, c, h, _⟩ => ⟨c, fun hh => by rw [h hh]; rfl⟩
+
+/-- `wbxml_buffer_duplicate` of a non-NULL buffer. -/
+theorem buffer_duplicate_clean (b : ABuf) (s : Ledger) (wf : s.WF) (hb : b.hdr ∈ s.live) :
+    AnyScheduleClean (bufDuplicate (some b)) Option.isNone s [] ownedBufOpt :=
+  clean_of_spec fun s' hl hn =>
+    (bufDuplicate_spec (some b) s' (wf_of_eq wf hl hn) (fun x hx => by cases hx; rw [hl]; exact hb)).mono
+      fun r t ⟨c, h, _, _⟩ => ⟨c, fun hh => by rw [h hh]; rfl⟩
+
+/-! ## Container core: lists -/
+
+theorem list_create_clean {ι : Type} (s : Ledger) (wf : s.WF) :
+    AnyScheduleClean (listCreate (ι := ι)) Option.isNone s [] (fun r => match r with | none => [] | some l => [l.hdr]) :=
+  clean_of_spec fun s' hl hn => (listCreate_spec (ι := ι) s' (wf_of_eq wf hl hn)).mono
+    fun r t ⟨c, h, _⟩ => ⟨c, fun hh => by rw [h hh]; rfl⟩
+
+/-- The cells a list gained. -/
+def newCells {ι : Type} (l : AList ι) (r : AList ι × Bool) : List Nat :=
+  (r.1.cells.map (·.1)).filter (fun i => !(l.cells.map (·.1)).contains i)
+
+theorem newCells_of_step {ι : Type} {l : AList ι} {s t : Ledger} {r : AList ι × Bool} (wf : s.WF)
+    (hc : ∀ c ∈ l.cells.map (·.1), c ∈ s.live) (h : ListStep l s r t) :
+    (∀ i, i ∈ t.live ↔ (i ∈ s.live ∧ i ∉ ([] : List Nat)) ∨ i ∈ newCells l r) ∧ s.hits ≤ t.hits := by
+  obtain ⟨_, _, hcase⟩ := h
+  rcases hcase with ⟨_, hl2, c⟩ | ⟨_, cid, c, hperm⟩
+  · refine ⟨fun i => ?_, c.hits⟩
+    rw [c.live]
+    have : newCells l r = [] := by
+      simp only [newCells, hl2, List.filter_eq_nil_iff]
+      intro a ha; simp [ha]
+    rw [this]
+  · refine ⟨fun i => ?_, c.hits⟩
+    rw [c.live]
+    have hcid : cid ∉ l.cells.map (·.1) := fun hm => c.fresh_not_live wf cid (by simp) (hc cid hm)
+    have hmem : i ∈ r.1.cells.map (·.1) ↔ i = cid ∨ i ∈ l.cells.map (·.1) := by
+      rw [hperm.mem_iff]; simp
+    simp only [newCells, List.mem_filter, hmem, List.contains_eq_mem, Bool.not_eq_eq_eq_not, Bool.not_true,
+      decide_eq_false_iff_not, List.mem_singleton, List.not_mem_nil, not_false_eq_true, and_true]
+    constructor
+    · rintro (h | h)
+      · exact Or.inl h
+      · subst h; exact Or.inr ⟨Or.inl rfl, hcid⟩
+    · rintro (h | ⟨h | h, hn⟩)
+      · exact Or.inl h
+      · exact Or.inr h
+      · exact (hn h).elim
+
+/-- `wbxml_list_append`: on success exactly one fresh cell; the list struct and the item are untouched. -/
+theorem list_append_clean {ι : Type} (l : AList ι) (item : ι) (s : Ledger) (wf : s.WF) (hl : l.hdr ∈ s.live)
+    (hc : ∀ c ∈ l.cells.map (·.1), c ∈ s.live) :
+    AnyScheduleClean (listAppend l item) (fun r => !r.2) s [] (newCells l) := by
+  refine clean_of_live fun s' hl' hn => (listAppend_spec l item s' (wf_of_eq wf hl' hn) (by rw [hl']; exact hl)).mono ?_
+  intro r t ⟨e, h, hcase⟩
+  have hstep : ListStep l s' r t := by
+    refine ⟨e, h, ?_⟩
+    rcases hcase with h1 | ⟨hok, cid, hcells, c⟩
+    · exact Or.inl h1
+    · refine Or.inr ⟨hok, cid, c, ?_⟩
+      rw [hcells]
+      simp only [List.map_append, List.map_cons, List.map_nil]
+      exact List.perm_append_singleton _ _
+  have := newCells_of_step (wf_of_eq wf hl' hn) (fun c hcm => by rw [hl']; exact hc c hcm) hstep
+  exact ⟨this.1, this.2, fun hh => by rw [h hh]; rfl⟩
+
+theorem list_insert_clean {ι : Type} (l : AList ι) (item : ι) (pos : Nat) (s : Ledger) (wf : s.WF) (hl : l.hdr ∈ s.live)
+    (hc : ∀ c ∈ l.cells.map (·.1), c ∈ s.live) :
+    AnyScheduleClean (listInsert l item pos) (fun r => !r.2) s [] (newCells l) := by
+  refine clean_of_live fun s' hl' hn => (listInsert_spec l item pos s' (wf_of_eq wf hl' hn) (by rw [hl']; exact hl)).mono ?_
+  intro r t hstep
+  have := newCells_of_step (wf_of_eq wf hl' hn) (fun c hcm => by rw [hl']; exact hc c hcm) hstep
+  exact ⟨this.1, this.2, fun hh => by rw [hstep.2.1 hh]; rfl⟩
+
+theorem list_destroy_clean {ι : Type} (oi : ι → List Nat) (d : ι → Prog Unit) (hd : Destroys oi d)
+    (l : Option (AList ι)) (s : Ledger) (wf : s.WF) (own : Owns s (listOwned oi l)) :
+    AnyScheduleClean (listDestroy l d) (fun _ => false) s (listOwned oi l) (fun _ => []) :=
+  clean_of_spec fun s' hl hn => (listDestroy_spec oi d hd l s' (wf_of_eq wf hl hn) (owns_of_eq own hl)).mono
+    fun r t ⟨c, h, _⟩ => ⟨c, fun hh => by omega⟩
+
+/-! ## Container core: tags, attribute names, attributes (`wbxml_elt.c`), tree node -/
+
+theorem name_create_token_clean (row : Nat) (s : Ledger) (wf : s.WF) :
+    AnyScheduleClean (nameCreateToken row) Option.isNone s [] ownedNameOpt :=
+  clean_of_spec fun s' hl hn => (nameCreateToken_spec row s' (wf_of_eq wf hl hn)).mono
+    fun r t ⟨c, h⟩ => ⟨c, fun hh => by rw [h hh]; rfl⟩
+
+theorem name_create_literal_clean (value : Option Bytes) (s : Ledger) (wf : s.WF) :
+    AnyScheduleClean (nameCreateLiteral value) Option.isNone s [] ownedNameOpt :=
+  clean_of_spec fun s' hl hn => (nameCreateLiteral_spec value s' (wf_of_eq wf hl hn)).mono
+    fun r t ⟨c, h⟩ => ⟨c, fun hh => by rw [h hh]; rfl⟩
+
+/-- `wbxml_tag_duplicate` / `wbxml_attribute_name_duplicate` (repaired): NULL on any failed copy. -/
+theorem name_duplicate_clean (t : AName) (s : Ledger) (wf : s.WF) (own : Owns s t.owned) :
+    AnyScheduleClean (nameDuplicate (some t)) Option.isNone s [] ownedNameOpt :=
+  clean_of_spec fun s' hl hn =>
+    (nameDuplicate_spec (some t) s' (wf_of_eq wf hl hn) (owns_of_eq own hl)).mono
+      fun r u ⟨c, h, _⟩ => ⟨c, fun hh => by rw [h hh]; rfl⟩
+
+theorem name_destroy_clean (t : Option AName) (s : Ledger) (wf : s.WF) (own : Owns s (ownedNameOpt t)) :
+    AnyScheduleClean (nameDestroy t) (fun _ => false) s (ownedNameOpt t) (fun _ => []) :=
+  clean_of_spec fun s' hl hn => (nameDestroy_spec t s' (wf_of_eq wf hl hn) (owns_of_eq own hl)).mono
+    fun r u ⟨c, h, _⟩ => ⟨c, fun hh => by omega⟩
+
+theorem attribute_create_clean (s : Ledger) (wf : s.WF) :
+    AnyScheduleClean attrCreate Option.isNone s [] ownedAttrOpt :=
+  clean_of_spec fun s' hl hn => (attrCreate_spec s' (wf_of_eq wf hl hn)).mono
+    fun r t ⟨c, h, _⟩ => ⟨c, fun hh => by rw [h hh]; rfl⟩
+
+/-- `wbxml_attribute_duplicate` (repaired): NULL when the name or the value cannot be copied. -/
+theorem attribute_duplicate_clean (a : AAttr) (s : Ledger) (wf : s.WF) (own : Owns s a.owned) :
+    AnyScheduleClean (attrDuplicate (some a)) Option.isNone s [] ownedAttrOpt :=
+  clean_of_spec fun s' hl hn =>
+    (attrDuplicate_spec (some a) s' (wf_of_eq wf hl hn) (owns_of_eq own hl)).mono
+      fun r t ⟨c, h, _⟩ => ⟨c, fun hh => by rw [h hh]; rfl⟩
+
+theorem attribute_destroy_clean (a : Option AAttr) (s : Ledger) (wf : s.WF) (own : Owns s (ownedAttrOpt a)) :
+    AnyScheduleClean (attrDestroy a) (fun _ => false) s (ownedAttrOpt a) (fun _ => []) :=
+  clean_of_spec fun s' hl hn => (attrDestroy_spec a s' (wf_of_eq wf hl hn) (owns_of_eq own hl)).mono
+    fun r u ⟨c, h, _⟩ => ⟨c, fun hh => by omega⟩
+
+/-- `wbxml_tree_node_add_attr` (repaired): the caller's attribute is never touched (it is not among
+    the consumed blocks), the node keeps everything it had, and a failure is reported. -/
+theorem tree_node_add_attr_clean (n : ANode) (attr : AAttr) (s : Ledger) (wf : s.WF) (own : Owns s n.owned)
+    (ownA : Owns s attr.owned) :
+    AnyScheduleClean (nodeAddAttr n attr) (fun r => r.2 != OK) s n.owned (fun r => r.1.owned) :=
+  clean_of_spec fun s' hl hn =>
+    (nodeAddAttr_spec n attr s' (wf_of_eq wf hl hn) (owns_of_eq own hl) (owns_of_eq ownA hl)).mono
+      fun r t ⟨_, c, h⟩ => ⟨c, fun hh => by rw [h hh]; rfl⟩
+
+theorem tree_node_destroy_clean (n : ANode) (s : Ledger) (wf : s.WF) (own : Owns s n.owned) :
+    AnyScheduleClean (nodeDestroy (some n)) (fun _ => false) s n.owned (fun _ => []) :=
+  clean_of_spec fun s' hl hn => (nodeDestroy_spec (some n) s' (wf_of_eq wf hl hn) (owns_of_eq own hl)).mono
+    fun r u ⟨c, h, _⟩ => ⟨c, fun hh => by omega⟩
+
+/-! ## Hand-unwound parser functions -/
+
+/-- `parse_attr_start` (repaired `LITERAL` case): an error code whenever the name could not be made. -/
+theorem parse_attr_start_clean (st : AttrStart) (hst : st.wf) (s : Ledger) (wf : s.WF) :
+    AnyScheduleClean (parseAttrStart st) (fun r => r.1 != OK) s [] (fun r => ownedNameOpt r.2.1) :=
+  clean_of_spec fun s' hl hn => (parseAttrStart_spec st hst s' (wf_of_eq wf hl hn)).mono
+    fun r t ⟨c, _, _, h⟩ => ⟨c, fun hh => by simpa using h hh⟩
+
+/-- … and with OK the name is there (what `parse_attribute` dereferences). -/
+theorem parse_attr_start_ok_has_name (st : AttrStart) (hst : st.wf) (s : Ledger) (wf : s.WF) :
+    Good (parseAttrStart st) s (fun r _ => r.1 = OK → r.2.1.isSome) :=
+  (parseAttrStart_spec st hst s wf).mono fun r t ⟨_, _, k, _⟩ => k
+
+/-- `parse_attribute`, for every attribute start and every list of value pieces. -/
+theorem parse_attribute_clean (a : AttrShape) (hst : a.start.wf) (s : Ledger) (wf : s.WF) :
+    AnyScheduleClean (parseAttribute a) (fun r => r.1 != OK) s [] (fun r => ownedAttrOpt r.2) :=
+  clean_of_spec fun s' hl hn => (parseAttribute_spec a hst s' (wf_of_eq wf hl hn)).mono
+    fun r t ⟨c, _, _, h⟩ => ⟨c, fun hh => by simpa using h hh⟩
+
+/-- `parse_element` with its `realloc`ed attribute table, for every tag and every attribute list. -/
+theorem parse_element_clean (t : TagShape) (ht : t.wf) (attrs : List AttrShape) (hshape : ∀ a ∈ attrs, a.start.wf)
+    (s : Ledger) (wf : s.WF) :
+    AnyScheduleClean (parseElement t attrs) (fun ret => ret != OK) s [] (fun _ => []) :=
+  clean_of_spec fun s' hl hn => (parseElement_spec t ht attrs hshape s' (wf_of_eq wf hl hn)).mono
+    fun r u ⟨c, h⟩ => ⟨c, fun hh => by simpa using h hh⟩
+
+theorem free_attrs_table_clean (tbl : Ptr) (entries : List AAttr) (s : Ledger) (wf : s.WF)
+    (own : Owns s (tbl.toList ++ entries.flatMap AAttr.owned)) (hnone : tbl = none → entries = []) :
+    AnyScheduleClean (freeAttrsTable tbl entries) (fun _ => false) s (tbl.toList ++ entries.flatMap AAttr.owned) (fun _ => []) :=
+  clean_of_spec fun s' hl hn =>
+    (freeAttrsTable_spec tbl entries s' (wf_of_eq wf hl hn) (owns_of_eq own hl) hnone).mono
+      fun r u ⟨c, h, _⟩ => ⟨c, fun hh => by omega⟩
+
+/-! ## The property's statement for one function, as `single_failure_clean` -/
+
+/-- `single_failure_clean` — the form quoted in DESIGN §5 C16 — for `parse_element`: for EVERY k. -/
+theorem single_failure_clean_parse_element (t : TagShape) (ht : t.wf) (attrs : List AttrShape)
+    (hshape : ∀ a ∈ attrs, a.start.wf) (s : Ledger) (wf : s.WF) :
+    SingleFailureClean (parseElement t attrs) (fun ret => ret != OK) s [] (fun _ => []) :=
+  (parse_element_clean t ht attrs hshape s wf).single
+
+theorem pair_failure_clean_parse_element (t : TagShape) (ht : t.wf) (attrs : List AttrShape)
+    (hshape : ∀ a ∈ attrs, a.start.wf) (s : Ledger) (wf : s.WF) :
+    PairFailureClean (parseElement t attrs) (fun ret => ret != OK) s [] (fun _ => []) :=
+  (parse_element_clean t ht attrs hshape s wf).pair
+
+/-! ## The code before the `fix:` commits: kernel-checked `(function, k)` witnesses -/
+
+/-- Did the run end in a fault? -/
+def faulted {α : Type} (r : Except Err α × Ledger) : Bool :=
+  match r.1 with
+  | .error (.ub _) => true
+  | _ => false
+
+/-- `grow_buff` (old), k = 3: the append fails cleanly for the caller, but the old data block (id 2)
+    is never released. -/
+theorem grow_buff_old_leaks : (run Old.growScenario (Ledger.start (failAt 3))).2.live = [2] := by decide
+
+/-- … and a caller that carries on writes through the NULL `data` pointer. -/
+theorem grow_buff_old_null_write : faulted (run Old.growScenario2 (Ledger.start (failAt 3))) = true := by decide
+
+/-- The repaired function on the same scenario: nothing live, no fault. -/
+theorem grow_buff_new_same_scenario :
+    (run Old.growScenarioNew (Ledger.start (failAt 3))).2.live = [] ∧
+    faulted (run Old.growScenarioNew (Ledger.start (failAt 3))) = false := by decide
+
+/-- `wbxml_tree_node_add_attr` (old), k = 11 (the list element): the caller's attribute is destroyed,
+    so the caller's own destroy is a double free. -/
+theorem add_attr_old_double_free :
+    faulted (run (Old.addAttrScenario Old.nodeAddAttr) (Ledger.start (failAt 11))) = true := by decide
+
+theorem add_attr_new_same_scenario :
+    faulted (run (Old.addAttrScenario nodeAddAttr) (Ledger.start (failAt 11))) = false ∧
+    (run (Old.addAttrScenario nodeAddAttr) (Ledger.start (failAt 11))).2.live = [] := by decide
+
+/-- `encoder_encode_tree` (old), k = 3 (the output buffer): the encoder is destroyed by the callee
+    and used / freed again by `wbxml_tree_to_wbxml`. -/
+theorem encode_tree_old_double_destroy :
+    faulted (run (Old.treeToWbxml false [] [[0x45]] 3 10) (Ledger.start (failAt 3))) = true := by decide
+
+theorem encode_tree_new_same_scenario :
+    faulted (run (treeToWbxml false [] [[0x45]] 3 10) (Ledger.start (failAt 3))) = false ∧
+    (run (treeToWbxml false [] [[0x45]] 3 10) (Ledger.start (failAt 3))).2.live = [] := by decide
+
+/-- `parse_attr_start` (old), literal attribute name with a non-empty value, k = 3 (the name buffer):
+    OK is returned with a NULL name, which `parse_attribute` dereferences. -/
+theorem parse_attr_start_old_null_name :
+    faulted (run (Old.parseAttribute ⟨.literal b!"id", [.sta b!"x"]⟩) (Ledger.start (failAt 3))) = true := by decide
+
+/-- `parse_element` (old), two attributes, k = 15 (the second `realloc`): the first table and the
+    attribute in it stay allocated. -/
+theorem parse_element_old_leaks_table :
+    (run (Old.parseElement (.token 5) [⟨.token 0 none, [.sta b!"ab"]⟩, ⟨.token 1 none, [.sta b!"c"]⟩]) (Ledger.start (failAt 15))).2.live ≠ [] := by
+  decide
+
+/-- The negation of the clause for the old `parse_element`: there IS a k that breaks it. -/
+theorem parse_element_old_not_single_failure_clean :
+    ¬ SingleFailureClean (Old.parseElement (.token 5) [⟨.token 0 none, [.sta b!"ab"]⟩, ⟨.token 1 none, [.sta b!"c"]⟩])
+        (fun ret => ret != OK) (Ledger.start []) [] (fun _ => []) := by
+  intro h
+  obtain ⟨r, s', hrun, hlive, _⟩ := h 15
+  have hl : s'.live = (run (Old.parseElement (.token 5) [⟨.token 0 none, [.sta b!"ab"]⟩, ⟨.token 1 none, [.sta b!"c"]⟩])
+      (Ledger.start (failAt 15))).2.live := by
+    have : ({ Ledger.start [] with sched := failAt 15 } : Ledger) = Ledger.start (failAt 15) := rfl
+    rw [this] at hrun; rw [hrun]
+  have hne := parse_element_old_leaks_table
+  rw [← hl] at hne
+  apply hne
+  cases hs : s'.live with
+  | nil => rfl
+  | cons a rest =>
+    have := (hlive a).1 (by rw [hs]; simp)
+    simp [Ledger.start] at this
 
 end Wbxml.Props.C16
